@@ -46,6 +46,11 @@ def _cases(tier):
             add(f"x.{red}(method,axis=-1)", f"lambda anp, x: x.{red}(axis=-1)", [shp], second=False)
         if red == "var":
             add("var(ddof=1)", "lambda anp, x: anp.var(x, axis=0, ddof=1)", [(3, 2)], second=False)
+    for red in ("max", "min"):
+        for ax in ((1, 0), (2, 0), (2, 1), (0, 2), (-1, 0)):
+            for kd in (False, True):
+                add(f"{red}(axis={ax},keepdims={kd})", f"lambda anp, x: anp.{red}(x, axis={ax!r}, keepdims={kd})", [(2, 3, 3)], mode="lin", second=False)
+                add(f"{red}(axis={ax},keepdims={kd})", f"lambda anp, x: anp.{red}(x, axis={ax!r}, keepdims={kd})", [(3, 2, 2)], mode="lin", second=False)
     for red in ("max", "min", "amax", "amin"):
         for shp in S1:
             nd = len(shp)
@@ -356,6 +361,8 @@ def run_case(case):
                 out.append(("X-reuse", reuse_ok, "second application of the same vjp function gives the same answer"))
         except S.SymLimit as e:
             out.append(("X-skip", True, f"reverse mode not evaluable on exact entries: {str(e)[:80]}"))
+        except ZeroDivisionError:
+            out.append(("X-vjp", False, "exact division by zero inside the rule: in float arithmetic this is a silent nan/inf, not an exception"))
         except Exception as e:
             out.append(("X-vjp-raises", True, f"{type(e).__name__}: {str(e)[:100]}"))
         # ---- forward mode
@@ -379,6 +386,8 @@ def run_case(case):
                 out.append(("X-jvp", jbad is None, "jvp(v) == J v" if jbad is None else jbad))
         except S.SymLimit as e:
             out.append(("X-skip", True, f"forward mode not evaluable on exact entries: {str(e)[:80]}"))
+        except ZeroDivisionError:
+            out.append(("X-jvp", False, "exact division by zero inside the rule: in float arithmetic this is a silent nan/inf, not an exception"))
         except Exception as e:
             out.append(("X-jvp-raises", True, f"{type(e).__name__}: {str(e)[:100]}"))
         # ---- second order (scalarised with symbolic weights c): Hessian exact + symmetric, mixed mode agrees
